@@ -64,6 +64,9 @@ CHECKS = {
     'C10': dict(engine='tlc-eaohistory', technique='TLC exploration of the lifecycle model EAOHistory (labelled state graph) -> histories (all of length <= 2, one per transition via shortest path, random walks) executed on real objects, each returned problem compared with Fresh(call, arguments)', cat='model_checking', ref='DESIGN.md 4 (C10), 2.6',
                 text='EAOHistory models what the implementation keeps between calls (grid each asset points to, portfolio grid, whose window sits in the shared restricted grid, normal form of user dictionaries) with the public calls as actions (asset / portfolio set-up with and without grid, split set-up, optimise+output, save/load). TLC explores the graph (TypeOK, PortfolioOwnsGrid, FormMonotone); the harness executes the derived histories on real objects (contract with interval-dictionary limits and take period, storage, structured wrapper, market; grids with another horizon / zone) and compares every call with what brand-new objects return for the same arguments; the projected implementation state is compared with the model state as a diagnostic only.',
                 note='Depth 3; quick tier samples the depth-3 transitions; violation criterion is only the returned problem / an unexpected exception.'),
+    'C11': dict(engine='tlc-eaohistory', technique='TLC on the class-descriptor model EAOSerial (stored keys within accepted keywords, required keywords stored, grid fields) with descriptors recorded from the running code + behavioural save/load/re-save/set-up round trips per lifecycle state', cat='model_checking', ref='DESIGN.md 4 (C11), 2.6',
+                text='Descriptors (attribute keys written by to_json in the states fresh / after set-up / after optimise; constructor keywords and required keywords by inspection) of every asset class of the zoo are given to TLC, which moves each class through its lifecycle and checks LoadableInv and GridSurvives. Behaviourally, every zoo asset and 13 parameter forms (scalars, interval dictionaries as lists / numpy / DatetimeIndex / without end / zone-aware, date windows, column names, order books from dict and DataFrame) are saved, loaded, re-saved (same JSON) and set up on naive and CET grids against the original; portfolios with naive and CET grids must keep time points and zone and produce the identical problem.',
+                note='Identity of problems by canonical digest (arrays rounded to 1e-9); zone-aware parameters only with zone-aware grids.'),
 }
 
 ENGINES = [
